@@ -19,30 +19,44 @@ static inline Alphabet registerAlphabet(VATA::ExplicitFiniteAut& aut) {
 static inline void fillStateDict(VATA::AutBase::StateDict& dict, unsigned n) {
   for (unsigned i = 0; i < n; ++i) dict.insert(std::make_pair(std::string(1, (char)('A' + i)), (VATA::AutBase::StateType)i));
 }
+enum { MAXNAMES = 8 };    // size of the dictionary handed to the library for numbering-free decoding ('A'..'H' = states 0..7)
+// free = false: the state called 'A'+k is universe state k (operands, whose numbers the harness chose itself).
+// free = true: numbering-independent decoding for RESULTS, whose state numbers are the library's business (Union,
+//   Intersection, Reverse, RemoveUnreachableStates and RemoveUselessStates all take a translation-map out-parameter, i.e. may
+//   renumber; GetCandidateTree returns a new automaton).  The names that occur (any of the MAXNAMES dictionary names) are
+//   entered into a slot table in order of first occurrence and the automaton is decoded over the slots 0..NR-1; ok = false
+//   if more than NR distinct states occur.  The language of the decoded automaton does not depend on the slot assignment.
 template <unsigned NR> struct Decoder : public VATA::Serialization::AbstrSerializer {
-  SymFA<NR> out; bool ok; unsigned nfinal, nrules;
-  Decoder() : ok(true), nfinal(0), nrules(0) { out.clear(); }
-  // one-hot position of a state name; sets ok=false if it is not one of 'A'..'A'+NR-1
-  bool stateHit(const std::string& s, unsigned k) const { return s.size() == 1 && s[0] == (char)('A' + k); }
+  SymFA<NR> out; bool ok; unsigned nfinal, nrules; bool free_; unsigned slotName[NR]; bool slotUsed[NR];
+  explicit Decoder(bool fr = false) : ok(true), nfinal(0), nrules(0), free_(fr) { out.clear(); for (unsigned i = 0; i < NR; ++i) { slotName[i] = 0; slotUsed[i] = false; } }
+  // one-hot position of a state name over the universe states 0..NR-1 (all false if it is not a known name / no slot is left)
+  void locate(const std::string& s, bool* hot) {
+    if (!free_) { for (unsigned k = 0; k < NR; ++k) hot[k] = s.size() == 1 && s[0] == (char)('A' + k); return; }
+    unsigned code = 255; for (unsigned j = 0; j < MAXNAMES; ++j) code = (s.size() == 1 && s[0] == (char)('A' + j)) ? j : code;
+    const bool known = code != 255; bool placed = !known;
+    for (unsigned i = 0; i < NR; ++i) { hot[i] = known & slotUsed[i] & (slotName[i] == code); placed = placed | hot[i]; }
+    for (unsigned i = 0; i < NR; ++i) { bool here = !placed & !slotUsed[i]; slotName[i] = here ? code : slotName[i]; slotUsed[i] = slotUsed[i] | here; hot[i] = hot[i] | here; placed = placed | here; }
+  }
   virtual std::string Serialize(const AutDescription& desc) override {
-    for (const std::string& s : desc.finalStates) { bool any = false; for (unsigned k = 0; k < NR; ++k) { bool h = stateHit(s, k); out.fin[k] |= h; any |= h; } ok &= any; ++nfinal; }
+    bool hs[NR], ht[NR];
+    for (const std::string& s : desc.finalStates) { bool any = false; locate(s, hs); for (unsigned k = 0; k < NR; ++k) { out.fin[k] |= hs[k]; any |= hs[k]; } ok &= any; ++nfinal; }
     for (const AutDescription::Transition& t : desc.transitions) {
       ++nrules;
-      if (t.first.empty()) { bool any = false; for (unsigned k = 0; k < NR; ++k) { bool h = stateHit(t.third, k); out.start[k] |= h; any |= h; } ok &= any; continue; }
+      if (t.first.empty()) { bool any = false; locate(t.third, ht); for (unsigned k = 0; k < NR; ++k) { out.start[k] |= ht[k]; any |= ht[k]; } ok &= any; continue; }
       if (t.first.size() != 1) { ok = false; continue; }
-      bool any = false;
+      bool any = false; locate(t.first[0], hs); locate(t.third, ht);
       for (unsigned a = 0; a < NSYM; ++a) { bool ha = t.second.size() == 1 && t.second[0] == (char)('a' + a);
-        for (unsigned q = 0; q < NR; ++q) { bool hq = ha & stateHit(t.first[0], q);
-          for (unsigned r = 0; r < NR; ++r) { bool h = hq & stateHit(t.third, r); out.edge[q][a][r] |= h; any |= h; } } }
+        for (unsigned q = 0; q < NR; ++q) { bool hq = ha & hs[q];
+          for (unsigned r = 0; r < NR; ++r) { bool h = hq & ht[r]; out.edge[q][a][r] |= h; any |= h; } } }
       ok &= any;
     }
     return std::string();
   }
 };
-// decode through the dictionary variant the CLI uses
-template <unsigned NR> static inline bool decode(const VATA::ExplicitFiniteAut& aut, SymFA<NR>& out) {
-  VATA::AutBase::StateDict dict; fillStateDict(dict, NR);
-  Decoder<NR> d; aut.DumpToString(d, dict);
+// decode through the dictionary variant the CLI uses; free: see Decoder
+template <unsigned NR> static inline bool decode(const VATA::ExplicitFiniteAut& aut, SymFA<NR>& out, bool free = false) {
+  VATA::AutBase::StateDict dict; fillStateDict(dict, free ? (unsigned)MAXNAMES : NR);
+  Decoder<NR> d(free); aut.DumpToString(d, dict);
   out = d.out; return d.ok;
 }
 }
